@@ -234,7 +234,7 @@ func engineReplay(prop, file, out string) error {
 // a flow with successors on the default and on the custom action.
 func genC18(r *rng, tier string, st *stats) []taggedScen {
 	var out []taggedScen
-	acts := []int{0, 1, 5}
+	acts := []int{0, 1, 5, 8, 9}
 	add := func(b *sb, tags []string, nontrivial bool) {
 		out = append(out, taggedScen{sc: b.sc, tags: tags, nontrivial: nontrivial})
 	}
@@ -424,7 +424,7 @@ func noteProgress(out string, i int, ts taggedScen) {
 // specName: the predicate the case files apply for a property
 func specName(prop string) string {
 	switch prop {
-	case "C02", "C17", "C05":
+	case "C02", "C17", "C05", "C18":
 		return "spec_" + prop + "x"
 	}
 	return "spec_" + prop
